@@ -366,7 +366,8 @@ class C16(vlib.Driver):
             for q in parts[:-1]:
                 obj = getattr(obj, q)
             return getattr(obj, parts[-1])(**kw)
-        for prep in case["prep"]:
+        order = [q for q in case["prep"] if q != "head_clone"] + [q for q in case["prep"] if q == "head_clone"][:1]
+        for prep in order:      # (a cloned EvolvableDistribution no longer advertises the head's mutation methods, so head_clone goes last)
             if prep == "clone":
                 actor = actor.clone()
             elif prep == "head_clone":
@@ -374,8 +375,10 @@ class C16(vlib.Driver):
             elif prep == "agent_clone":
                 agent = agent.clone()
                 actor = agent.actor
-            elif prep == "change_activation":
-                actor.change_activation("Tanh" if case["seed"] % 2 else "ELU", output=False)
+            elif prep == "change_activation":      # (StochasticActor.change_activation itself raises NotImplementedError: the wrapper lacks it)
+                act = "Tanh" if case["seed"] % 2 else "ELU"
+                actor.encoder.change_activation(act, output=True)
+                actor.head_net.wrapped.change_activation(act, output=False)
             else:
                 if prep not in advertised:
                     raise RuntimeError(f"the actor no longer advertises mutation method {prep}: {advertised}")
@@ -802,7 +805,8 @@ class C16(vlib.Driver):
         sq = case["squash"] and box
         vs = []
         one = "1" if (ncomp(sp) == 1 and scen in ("ppo_learn", "ippo_learn")) else ""
-        ptag = ("+" + "+".join(case["prep"])) if case.get("prep") else ""
+        # the site names the preparation; a distribution clone is one site whatever else preceded it
+        ptag = "+head_clone" if "head_clone" in (case.get("prep") or []) else (("+" + "+".join(case["prep"])) if case.get("prep") else "")
         site = f"{case['api']}:{scen}{ptag}:{sp['kind']}{one}:{'squash' if (case['squash'] and box) else 'plain'}"
         if obs.get("raised"):
             return [Violation("raises", f"raises:{site}", f"the call raised {obs['raised']} on a valid configuration")]
